@@ -20,6 +20,18 @@ R3 steps selected for re-execution (`GraphMapper.get_step_ids`): ports of the fa
    collected under `port name not in self.port_tokens` and removed from the returned set on every
    path (not only when debugging).
 R4 (added) every coroutine call of these functions is awaited.
+R5 (added) the `restore` overrides select exactly the requested tags.  Every override of `Step.restore` /
+   `Combinator.restore` is enumerated through the class table.  (a) In none of them a tag (`<x>.tag`, a
+   local derived from one, an entry of the combinator's `from_tags`) is compared as a raw string:
+   no `startswith/endswith/find/index/count` on or against a tag, no `in` whose right operand is a tag
+   string, no slice of a tag string, no regular expression, no `< <= > >=` between tags and no
+   `min/max/sorted/.sort` over tags without `key=` (or with the raw tag as key) - whole tags are compared with
+   `==` / membership in a collection, prefixes on `split('.')` component lists, order with `compare_tags`.
+   (b) Every `FilterTokenPort` built by a `restore` gets a filter that is an exact test
+   `<token>.tag in <tags of on_tokens[...]>` (or `==` / `any(== ...)`), the collection being fed only from
+   the `on_tokens` argument; `ScatterStep.restore` builds one.  Nec.: `0.1` is a string prefix of `0.10`;
+   a prefix / substring / wider filter re-scatters elements whose results stayed available and their jobs
+   run again.
 Undecided: the predicted re-execution counts.
 """
 
@@ -29,11 +41,12 @@ import ast
 
 from ..cfg import NORMAL
 from ..dataflow import defs_of, origins
-from ..model import ancestors, unparse
+from ..model import ancestors, parent, unparse
 from ..selftest import V
 from ._util_D import (
     FM_FILE,
     RFM,
+    STEP_FILE,
     TOKEN_FILE,
     UTILS,
     UTILS_FILE,
@@ -41,6 +54,7 @@ from ._util_D import (
     branch_edges,
     check_awaited,
     check_defined,
+    rcall,
     has_fact,
     membership_fact,
     path_facts,
@@ -541,7 +555,381 @@ def r4(ctx):
     check_defined(ctx, "R4", names, classes=[f"{UTILS}.ProvenanceGraph", f"{UTILS}.GraphMapper"])
 
 
-RULES = [("R1", r1), ("R2", r2), ("R3", r3), ("R4", r4)]
+# --------------------------------------------------------------------------- R5
+
+STEP_BASE = f"{CORE_WF}.Step"
+STEPM = "streamflow.workflow.step"
+COMB_BASE = f"{STEPM}.Combinator"
+FILTER_PORT = "streamflow.workflow.port.FilterTokenPort"
+COMB_FILE = "streamflow/workflow/combinator.py"
+
+_UP = {"tag": "tags", "tags": "tagss"}
+_DOWN = {"tags": "tag", "tagss": "tags", "tagitems": "tagitem"}
+_WRAP = ("list", "set", "tuple", "frozenset", "sorted", "reversed", "iter")
+_ADD1 = ("append", "add", "appendleft")
+_ADDN = ("extend", "update")
+_SEARCH = ("startswith", "endswith", "find", "rfind", "index", "rindex", "count")
+_RAW = ("tag", "str")  # a tag as a plain string / a string assembled from tags
+_PRIORITY = ("tag", "str", "comps", "tags", "tagss", "tagitems", "tagmap", "tagitem")
+
+
+def _target_index(t: ast.AST, name: str, idx=None):
+    """Unpacking position of `name` in assignment target `t` (None: bound as a whole; False: not bound)."""
+    if isinstance(t, ast.Name):
+        return idx if t.id == name else False
+    if isinstance(t, ast.Starred):
+        return _target_index(t.value, name, idx)
+    if isinstance(t, (ast.Tuple, ast.List)):
+        for i, x in enumerate(t.elts):
+            r = _target_index(x, name, i if idx is None else idx)
+            if r is not False:
+                return r
+    return False
+
+
+def _const(e, value) -> bool:
+    return isinstance(e, ast.Constant) and e.value == value and type(e.value) is type(value)
+
+
+class _TagKinds:
+    """What an expression of a `restore` override denotes, as far as tags are concerned (flow-insensitive,
+    through local definitions, loop / comprehension targets and `.append/.add/.extend/.update` feeds):
+    'tag' a tag string; 'str' another string cut from / assembled from tags; 'comps' the list of components
+    `tag.split('.')` (or a slice of it); 'tags' a collection of tags; 'tagss' a collection of those;
+    'tagmap' a mapping name -> tags (`seeds`: the parameter of Combinator.restore); None anything else."""
+
+    def __init__(self, f, seeds: dict[str, str]):
+        self.f, self.seeds = f, seeds
+        self.feeds: dict[str, list[tuple[str, ast.AST]]] = {}
+        for n in ast.walk(f.node):
+            if isinstance(n, ast.Call) and isinstance(n.func, ast.Attribute) and isinstance(n.func.value, ast.Name) \
+                    and n.func.attr in _ADD1 + _ADDN and len(n.args) == 1:
+                self.feeds.setdefault(n.func.value.id, []).append((n.func.attr, n.args[0]))
+
+    def sources(self, name: str) -> list[ast.AST]:
+        """Expressions whose value (or elements) end up in the function-level local `name`."""
+        out = [d.value for d in defs_of(self.f, name) if d.value is not None and d.kind != "comp"]
+        return out + [a for _, a in self.feeds.get(name, ())]
+
+    @staticmethod
+    def scoped(n: ast.Name):
+        """A name bound by an enclosing comprehension / lambda is local to it (the same identifier may be a
+        loop variable elsewhere in the function): ('comp', iterable, unpack index) / ('lambda', None, None) / None."""
+        for a in ancestors(n):
+            if isinstance(a, (ast.ListComp, ast.SetComp, ast.GeneratorExp, ast.DictComp)):
+                for gen in a.generators:
+                    idx = _target_index(gen.target, n.id)
+                    if idx is not False:
+                        return "comp", gen.iter, idx
+            elif isinstance(a, ast.Lambda):
+                al = a.args
+                if n.id in {x.arg for x in al.posonlyargs + al.args + al.kwonlyargs + [y for y in (al.vararg, al.kwarg) if y]}:
+                    return "lambda", None, None
+            elif isinstance(a, (ast.FunctionDef, ast.AsyncFunctionDef)):
+                break
+        return None
+
+    def _unpacked(self, k, index):
+        if k == "tagitem":
+            return "tags" if index == 1 else None
+        return _DOWN.get(k)
+
+    def _name(self, node: ast.Name, seen: frozenset):
+        name = node.id
+        sc = self.scoped(node)
+        if sc is not None:
+            if sc[0] == "lambda":
+                return None
+            k = _DOWN.get(self.kind(sc[1], seen))
+            return self._unpacked(k, sc[2]) if sc[2] is not None else k
+        if name in seen:
+            return None
+        seen = seen | {name}
+        ks = []
+        for d in defs_of(self.f, name):
+            if d.kind == "comp":
+                continue
+            if d.kind == "param":
+                ks.append(self.seeds.get(name))
+                continue
+            if d.value is None or d.kind in ("with", "except", "import"):
+                continue
+            k = self.kind(d.value, seen)
+            if d.kind == "for":
+                k = _DOWN.get(k)
+            if d.index is not None:
+                k = self._unpacked(k, d.index)
+            ks.append(k)
+        for meth, arg in self.feeds.get(name, ()):
+            k = self.kind(arg, seen)
+            ks.append(_UP.get(k) if meth in _ADD1 else k)
+        return next((k for k in _PRIORITY if k in ks), None)
+
+    def kind(self, e: ast.AST | None, seen: frozenset = frozenset()):
+        if e is None:
+            return None
+        e = strip(e)
+        if isinstance(e, ast.Starred):
+            e = strip(e.value)
+        if isinstance(e, ast.Attribute):
+            return "tag" if e.attr == "tag" else None
+        if isinstance(e, ast.Name):
+            return self._name(e, seen)
+        if isinstance(e, ast.IfExp):
+            return self.kind(e.body, seen) or self.kind(e.orelse, seen)
+        if isinstance(e, ast.JoinedStr):
+            return "str" if any(isinstance(v, ast.FormattedValue) and self.kind(v.value, seen) in _RAW for v in e.values) else None
+        if isinstance(e, (ast.ListComp, ast.SetComp, ast.GeneratorExp)):
+            return _UP.get(self.kind(e.elt, seen))
+        if isinstance(e, (ast.List, ast.Set, ast.Tuple)):
+            ks = [self.kind(x, seen) for x in e.elts]
+            return next((_UP[k] for k in ("tag", "tags") if k in ks), None)
+        if isinstance(e, ast.Subscript):
+            k = self.kind(e.value, seen)
+            if isinstance(e.slice, ast.Slice):
+                return "str" if k in _RAW else k
+            if k == "tagmap":
+                return "tags"
+            if k == "tagitem":
+                return "tags" if _const(e.slice, 1) else None
+            return _DOWN.get(k)
+        if isinstance(e, ast.BinOp):
+            ks = (self.kind(e.left, seen), self.kind(e.right, seen))
+            if isinstance(e.op, (ast.BitOr, ast.BitAnd, ast.BitXor, ast.Sub, ast.Add)):
+                for k in ("tagss", "tags", "comps"):
+                    if k in ks:
+                        return k
+            if isinstance(e.op, (ast.Add, ast.Mod)) and set(ks) & set(_RAW):
+                return "str"
+            return None
+        if isinstance(e, ast.Call):
+            fn = e.func
+            a0 = self.kind(e.args[0], seen) if e.args else None
+            if isinstance(fn, ast.Name):
+                if fn.id in _WRAP:
+                    return a0 if a0 in ("tags", "tagss", "comps", "tagitems") else None
+                if fn.id in ("min", "max") and len(e.args) > 1:
+                    return "tag" if any(self.kind(a, seen) == "tag" for a in e.args) else None
+                if fn.id in ("next", "min", "max"):
+                    return _DOWN.get(a0)
+                if fn.id == "str":
+                    return a0 if a0 in _RAW else None
+                return None
+            if isinstance(fn, ast.Attribute):
+                rk = self.kind(fn.value, seen)
+                if fn.attr == "join":
+                    if a0 == "comps":
+                        return "tag" if _const(fn.value, ".") else "str"
+                    return "str" if a0 in ("tags", "tagss") else None
+                if fn.attr in ("split", "rsplit"):
+                    return "comps" if rk == "tag" and e.args and _const(e.args[0], ".") else None
+                if rk == "tagmap":
+                    return {"values": "tagss", "items": "tagitems", "get": "tags", "pop": "tags", "setdefault": "tags", "copy": "tagmap"}.get(fn.attr)
+                if rk in ("tags", "tagss", "comps"):
+                    if fn.attr in ("copy", "union", "difference", "intersection", "symmetric_difference"):
+                        return rk
+                    if fn.attr == "pop":
+                        return _DOWN.get(rk)
+                if rk in _RAW and fn.attr in ("strip", "lstrip", "rstrip", "lower", "upper", "removeprefix", "removesuffix", "replace", "format"):
+                    return "str"
+            return None
+        return None
+
+
+def _callable_def(f, e: ast.AST):
+    """(parameter names, [result expressions]) of the lambda / local function denoted by `e`, or None."""
+    e = strip(e)
+    if isinstance(e, ast.Name):
+        vals = [d for d in defs_of(f, e.id)]
+        nested = [n for n in ast.walk(f.node) if isinstance(n, (ast.FunctionDef, ast.AsyncFunctionDef)) and n is not f.node and n.name == e.id]
+        if len(nested) == 1 and not vals:
+            fn = nested[0]
+            rets = [n.value for n in ast.walk(fn) if isinstance(n, ast.Return)]
+            if isinstance(fn, ast.AsyncFunctionDef) or not rets or any(r is None for r in rets):
+                return None
+            return [a.arg for a in fn.args.posonlyargs + fn.args.args], rets
+        if len(vals) == 1 and vals[0].kind in ("assign", "walrus") and vals[0].index is None and not nested:
+            e = strip(vals[0].value)
+    if isinstance(e, ast.Lambda):
+        return [a.arg for a in e.args.posonlyargs + e.args.args], [e.body]
+    return None
+
+
+def _requested(tk: _TagKinds, e: ast.AST | None, param: str, seen: frozenset = frozenset()) -> bool:
+    """Every value `e` can hold (every element it can contain) is taken from parameter `param`."""
+    if e is None:
+        return False
+    e = strip(e)
+    if isinstance(e, ast.Starred):
+        e = strip(e.value)
+    if isinstance(e, ast.Name):
+        sc = tk.scoped(e)
+        if sc is not None:
+            return sc[0] == "comp" and _requested(tk, sc[1], param, seen)
+        if e.id == param:
+            return all(d.kind in ("param", "comp") for d in defs_of(tk.f, e.id))
+        if e.id in seen:
+            return True  # a cycle adds nothing new (x = x | y)
+        src = [s_ for s_ in tk.sources(e.id) if not _empty_collection(s_)]
+        return bool(src) and all(_requested(tk, s_, param, seen | {e.id}) for s_ in src)
+    if isinstance(e, (ast.Attribute, ast.Subscript)):
+        return _requested(tk, e.value, param, seen)
+    if isinstance(e, (ast.ListComp, ast.SetComp, ast.GeneratorExp)):
+        return _requested(tk, e.elt, param, seen)
+    if isinstance(e, (ast.List, ast.Set, ast.Tuple)):
+        return bool(e.elts) and all(_requested(tk, x, param, seen) for x in e.elts)
+    if isinstance(e, ast.BinOp):
+        if isinstance(e.op, (ast.BitAnd, ast.Sub)):
+            return _requested(tk, e.left, param, seen)  # intersection / difference only narrow the left operand
+        return _requested(tk, e.left, param, seen) and _requested(tk, e.right, param, seen)
+    if isinstance(e, ast.IfExp):
+        return _requested(tk, e.body, param, seen) and _requested(tk, e.orelse, param, seen)
+    if isinstance(e, ast.Call):
+        if isinstance(e.func, ast.Name) and e.func.id in _WRAP + ("next", "min", "max", "str") and e.args:
+            return all(_requested(tk, a, param, seen) for a in e.args)
+        if isinstance(e.func, ast.Attribute) and e.func.attr in ("values", "get", "copy", "pop", "items") and not isinstance(strip(e.func.value), ast.Constant):
+            return _requested(tk, e.func.value, param, seen)
+    return False
+
+
+def _empty_collection(e: ast.AST) -> bool:
+    e = strip(e)
+    if isinstance(e, (ast.List, ast.Set, ast.Tuple)) and not e.elts:
+        return True
+    return isinstance(e, ast.Call) and isinstance(e.func, ast.Name) and e.func.id in ("list", "set", "tuple", "frozenset") and not e.args and not e.keywords
+
+
+def _exact_filter(tk: _TagKinds, tok: str, e: ast.AST, param: str, positive: bool = True) -> bool:
+    """`e` (negated when not `positive`) is true only for a token `tok` whose whole tag equals one of the
+    tags taken from `param`."""
+    e = strip(e)
+
+    def own_tag(x):
+        x = strip(x)
+        return isinstance(x, ast.Attribute) and x.attr == "tag" and isinstance(x.value, ast.Name) and x.value.id == tok
+
+    if isinstance(e, ast.UnaryOp) and isinstance(e.op, ast.Not):
+        return _exact_filter(tk, tok, e.operand, param, not positive)
+    if isinstance(e, ast.BoolOp):
+        conj = isinstance(e.op, ast.And) == positive  # De Morgan
+        parts = [_exact_filter(tk, tok, v, param, positive) for v in e.values]
+        return any(parts) if conj else all(parts)
+    if isinstance(e, ast.Compare) and len(e.ops) == 1:
+        op, l, r = e.ops[0], e.left, e.comparators[0]
+        if isinstance(op, ast.In if positive else ast.NotIn):
+            return own_tag(l) and tk.kind(r) == "tags" and _requested(tk, r, param)
+        if isinstance(op, ast.Eq if positive else ast.NotEq):
+            return any(own_tag(a) and tk.kind(b) == "tag" and not own_tag(b) and _requested(tk, b, param) for a, b in ((l, r), (r, l)))
+        return False
+    if positive and isinstance(e, ast.Call) and isinstance(e.func, ast.Name) and e.func.id == "any" and len(e.args) == 1 \
+            and isinstance(e.args[0], (ast.GeneratorExp, ast.ListComp)) and len(e.args[0].generators) == 1:
+        gen = e.args[0].generators[0]
+        if isinstance(gen.target, ast.Name) and tk.kind(gen.iter) == "tags" and _requested(tk, gen.iter, param):
+            v = gen.target.id
+            c = strip(e.args[0].elt)
+            if isinstance(c, ast.Compare) and len(c.ops) == 1 and isinstance(c.ops[0], ast.Eq):
+                l, r = c.left, c.comparators[0]
+                return any(own_tag(a) and isinstance(strip(b), ast.Name) and strip(b).id == v for a, b in ((l, r), (r, l)))
+    return False
+
+
+def _raw_tag_ops(p, f, tk: _TagKinds) -> list[tuple[ast.AST, str]]:
+    """Constructs of `f` (lambdas and local functions included) that compare / order / cut tags as raw strings."""
+    out: list[tuple[ast.AST, str]] = []
+    for n in ast.walk(f.node):
+        if isinstance(n, ast.Call):
+            fn = n.func
+            key = next((k.value for k in n.keywords if k.arg == "key"), None)
+            kdef = _callable_def(f, key) if key is not None else None
+            raw_key = kdef is not None and any(tk.kind(b) in ("tag", "str", "comps") for b in kdef[1])
+            aks = [tk.kind(a) for a in n.args]
+            if isinstance(fn, ast.Attribute):
+                rk = tk.kind(fn.value)
+                if fn.attr in _SEARCH and rk in _RAW:
+                    out.append((n, f"`.{fn.attr}()` searches the tag as a raw string"))
+                elif fn.attr in ("startswith", "endswith", "find", "rfind") and rk not in ("tags", "tagss", "comps") and any(k in ("tag", "tags", "str") for k in aks):
+                    out.append((n, f"`.{fn.attr}()` tests a raw string against a tag"))
+                elif fn.attr == "sort" and rk == "tags" and (key is None or raw_key):
+                    out.append((n, "tags are sorted as raw strings (lexicographic: `0.10` < `0.2`), not with compare_tags"))
+            elif isinstance(fn, ast.Name) and fn.id in ("min", "max", "sorted") and n.args:
+                over = aks[0] in ("tags", "tagss") or (len(n.args) > 1 and "tag" in aks)
+                if (over and key is None) or raw_key:
+                    out.append((n, f"`{fn.id}` orders tags as raw strings (lexicographic: `0.10` < `0.2`), not with compare_tags"))
+            if any(k in ("tag", "tags", "str") for k in aks) and any(q.split(".")[0] in ("re", "fnmatch") for q in rcall(p, f, n)):
+                out.append((n, "a tag is matched against a pattern"))
+        elif isinstance(n, ast.Compare):
+            operands = [n.left, *n.comparators]
+            for i, op in enumerate(n.ops):
+                lk, rk = tk.kind(operands[i]), tk.kind(operands[i + 1])
+                if isinstance(op, (ast.In, ast.NotIn)) and rk in _RAW:
+                    out.append((n, "`in` with a tag string on the right is a substring test"))
+                elif isinstance(op, (ast.Lt, ast.LtE, ast.Gt, ast.GtE)) and {lk, rk} & {"tag", "str", "comps"}:
+                    out.append((n, "tags are ordered as raw strings (lexicographic: `0.10` < `0.2`), not with compare_tags"))
+        elif isinstance(n, ast.Subscript) and isinstance(n.slice, ast.Slice) and tk.kind(n.value) in _RAW:
+            out.append((n, "a tag string is sliced by character position"))
+    out.sort(key=lambda x: (getattr(x[0], "lineno", 0), getattr(x[0], "col_offset", 0)))
+    return out
+
+
+def r5(ctx):
+    p = ctx.prog
+    fp_init = p.func(f"{FILTER_PORT}.__init__")
+    step_restore = p.func(f"{STEP_BASE}.restore")
+    comb_restore = p.func(f"{COMB_BASE}.restore")
+    ctx.require(len(step_restore.params) >= 2 and len(comb_restore.params) >= 2, "C18.R5: Step.restore / Combinator.restore lost their argument")
+    step_over = p.overrides(STEP_BASE, "restore")
+    comb_over = p.overrides(COMB_BASE, "restore")
+    ctx.require(f"{STEPM}.ScatterStep.restore" in {f.qualname for f in step_over}, "C18.R5: ScatterStep.restore vanished")
+    seen = set()
+    for f, is_comb in [(f, False) for f in step_over] + [(f, True) for f in comb_over]:
+        if f.qualname in seen:
+            continue
+        seen.add(f.qualname)
+        ctx.require(len(f.params) >= 2, f"C18.R5: {f.qualname} has no argument")
+        arg = f.params[1]
+        tk = _TagKinds(f, {arg: "tagmap"} if is_comb else {})
+        # (a) no raw-string comparison of tags
+        bad = _raw_tag_ops(p, f, tk)
+        has_tags = any(isinstance(n, ast.Attribute) and n.attr == "tag" for n in ast.walk(f.node)) or (is_comb and any(
+            isinstance(n, ast.Name) and n.id == arg and isinstance(n.ctx, ast.Load) for n in ast.walk(f.node)))
+        if not bad:
+            ctx.ob("R5", "tags are compared as whole strings / component lists / with compare_tags, never as raw string prefixes", True, func=f, node=f.node,
+                   instance="restore:raw-tag-ops", trivial=not has_tags)
+        for n, why in bad:
+            ctx.ob("R5", "tags are compared as whole strings / component lists / with compare_tags, never as raw string prefixes", False, func=f, node=n,
+                   instance=f"restore:raw-tag-op:{unparse(n)}",
+                   message=f"`{unparse(n)[:90]}` in {f.qualname}: {why} - tag `0.1` also selects `0.10`, `0.11`, ...: elements / iterations "
+                           "whose results stayed available are re-executed")
+        if is_comb:
+            continue
+        # (b) the filter of every FilterTokenPort built here is an exact membership test over on_tokens
+        ports = [c for c in ast.walk(f.node) if isinstance(c, ast.Call) and resolves_to(p, f, c, [FILTER_PORT, f"{FILTER_PORT}.__init__"], attr_fallback=False)]
+        if f.qualname == f"{STEPM}.ScatterStep.restore" and not ports:
+            ctx.ob("R5", "the restored port admits exactly the tags of the tokens in on_tokens", False, func=f, node=f.node, instance="filter:exact",
+                   message="ScatterStep.restore builds no FilterTokenPort: a restored scatter re-emits every element, also those whose results are still available")
+        for c in ports:
+            b = bind_args(fp_init.node, c)
+            fe = (b or {}).get("filter_function")
+            why = ""
+            if b is None:
+                why = "its arguments are forwarded with */**"
+            elif fe is None or _const(strip(fe), None):
+                why = "no filter_function is given (the default admits every token)"
+            else:
+                cd = _callable_def(f, fe)
+                if cd is None or len(cd[0]) != 1:
+                    why = f"the filter `{unparse(fe)[:60]}` is not a one-argument lambda / local function that can be read here"
+                else:
+                    tok = cd[0][0]
+                    wrong = [r for r in cd[1] if not (_const(strip(r), False) or _exact_filter(tk, tok, r, arg))]
+                    if wrong:
+                        why = (f"the filter result `{unparse(wrong[0])[:80]}` is not `{tok}.tag in <tags of {arg}[...]>` (whole-tag equality / membership "
+                               f"in a collection fed only from `{arg}`)")
+            ctx.ob("R5", "the restored port admits exactly the tags of the tokens in on_tokens", not why, func=f, node=c, instance="filter:exact",
+                   message=f"FilterTokenPort in {f.qualname}: {why}: tokens that were not lost pass the filter and their jobs are re-executed")
+
+
+RULES = [("R1", r1), ("R2", r2), ("R3", r3), ("R4", r4), ("R5", r5)]
 FLOORS = {"R1": 9, "R2": 11, "R3": 5, "R4": 16}
 
 _BG = f"{UTILS}.ProvenanceGraph.build_graph"
